@@ -4,6 +4,8 @@ Implementations of IInput
 import logging
 from datetime import datetime
 
+import numpy as np
+
 from ..data import tools
 from ..data.tools import Info
 from ..errors import FinamMetaDataError
@@ -205,8 +207,12 @@ class Input(IInput, Loggable):
                     f"Can't accept incoming data info. Failed entries:\n{fail_info}"
                 )
 
+        # the delivered mask, laid out for the input's own grid
+        mask = src_info.mask
+        if info.grid is not None and isinstance(mask, np.ndarray) and mask.ndim > 0:
+            mask = info.grid.from_canonical(src_info.grid.to_canonical(mask))
         self._input_info = src_info.copy_with(
-            use_none=False, time=info.time, grid=info.grid, **info.meta
+            use_none=False, time=info.time, grid=info.grid, mask=mask, **info.meta
         )
         self._in_info_exchanged = True
         with ErrorLogger(self.logger):
